@@ -17,7 +17,7 @@ RULE = (
     "pair, also right after an Unknown-quantity lookup of the same target; Convert(u->v,x) equals the target's from-base "
     "applied to the source's to-base of the same database, exactly; a user database that reuses shipped symbols with "
     "other definitions is alive and converting next to the shipped ones (both orders), each answering from its own "
-    "definitions. The same values handed over as one numpy array (the registered vectorised conversion) give the numbers of the float conversion for every ordered pair. Non-trivial = u!=v, at least one "
+    "definitions. The same values handed over as one numpy array (the registered vectorised conversion) give the numbers of the float conversion for every ordered pair. With exponent 1 the exponent-list form equals the plain conversion for every unit, offsets and negative values included. Non-trivial = u!=v, at least one "
     "side has a conversion, x!=0; distinct key = (config, quantity type, u, v[, w])."
 )
 ASSUMPTIONS = [
@@ -228,9 +228,21 @@ def exp_form_checks(sw, qt, u, partners):
     """The exponent-list form of Convert, [(u,e)] -> [(v,e)]: round trip, sign and order for e in 2, 3, -2
     (scale-only units; the form is defined through the unit ratio)."""
     ctx, db, um = sw.ctx, sw.db, sw.um
-    if um.offset[u] != 0 or u in sw.bad_units:
+    if u in sw.bad_units:
         return
     vals = [-9.0, -4.0, 0.5, 3.0, 250.0]
+    # with exponent 1 the list form is the plain conversion, for every unit (offsets included) and every sign
+    for v in partners:
+        if v in sw.bad_units:
+            continue
+        for x in vals + [-273.15, 0.0]:
+            ctx.ev()
+            y, w = db.Convert(qt, [(u, 1)], [(v, 1)], x), db.Convert(qt, u, v, x)
+            if y != w and not (y != y and w != w):
+                ctx.record("exponent_form_with_exponent_1_differs_from_plain_conversion:%s" % sw.cfg, {"config": sw.cfg, "qt": qt, "u": u, "v": v, "x": x, "e": 1, "kind": "expform"}, "Convert(%r,[(%r,1)],[(%r,1)],%r) = %r, Convert(%r,%r,%r,%r) = %r" % (qt, u, v, x, y, qt, u, v, x, w))
+                break
+    if um.offset[u] != 0:
+        return
     for v in partners:
         if v == u or um.offset[v] != 0 or v in sw.bad_units:
             continue
